@@ -314,6 +314,9 @@ shared_ptr<IDataArray> BlockHDF5::createDataArray(const std::string &name,
                                                   nix::DataType data_type,
                                                   const NDSize &shape,
                                                   const Compression &compression) {
+    // throws for element types that cannot be stored, before anything is created
+    data_type_to_h5_filetype(data_type);
+
     string id = util::createId();
     boost::optional<H5Group> g = data_array_group(true);
 
